@@ -20,7 +20,7 @@ import random
 
 from harness import core
 
-NPROC = 8          # worker processes: each pays import + JIT (about 20 s CPU), the jobs themselves are cheap
+NPROC = 6          # worker processes: each pays import + JIT (about 20 s CPU), the jobs themselves are cheap
 STATS = ["mean", "max", "min", "range", "std", "var", "sum"]
 VALS4 = [0, 1, 2, "nan"]
 EXCLS = [["nan"], [0], [0, "nan"], [1, 2]]
@@ -205,7 +205,7 @@ def mean_jobs(rng, tier):
     for t in range(n):
         H, W = rng.choice([(3, 3), (4, 4), (3, 4), (4, 3), (1, 4), (5, 5)])
         X = rand_raster(rng, H, W, [0, 1, 2], rng.choice([0.0, 0.2, 0.5]))
-        ex = rng.choice(EXCLS + [[2], ["nan", 1]])
+        ex = rng.choice(EXCLS + [[2], ["nan", 1]] + EXCL_MORE[:3])
         p = rng.choice([0, 1, 1, 2, 2])
         j = {"kind": "mean", "X": X, "passes": p, "excl": ex, "tag": "mean_random"}
         if ex == ["nan"] and rng.random() < 0.5:
@@ -339,6 +339,119 @@ def badkernel_jobs():
             for w in ("ndarray", "list")]
 
 
+DTYPES = ["int8", "uint8", "int16", "uint16", "int32", "int64", "uint64", "float32", "float64"]
+LAYOUTS = ["C", "F", "T", "S", "R"]          # C, Fortran, transposed view, strided view, reversed view
+KVARIANTS = [("bool", "C"), ("int32", "C"), ("int64", "C"), ("float32", "C"), ("float64", "F"), ("int64", "F"),
+             ("bool", "F")]
+EXCL_MORE = [[0, 0], [1, 2, 1], [0, 1, "nan", "nan"], [2, "nan", 0], [-9999, 0, -9999]]
+
+
+def transpose(K):
+    return [list(r) for r in zip(*K)]
+
+
+def input_variation_jobs(rng, tier, fam):
+    """Input variation that the properties quantify over but a value-oriented corpus forgets: memory layouts and
+    dtypes of the raster, kernel array types and orders, every orientation of the asymmetric kernels, passes = 3,
+    exclusion lists with duplicates, z exactly 0, all-zero weights, tiny rasters under big kernels."""
+    q = tier == "quick"
+    jobs = []
+    if q:
+        combos = ([("C", dt) for dt in DTYPES] + [(L, "float64") for L in LAYOUTS[1:]]
+                  + [("F", "int16"), ("S", "uint8"), ("T", "float32"), ("R", "int64")])
+    else:
+        combos = [(L, dt) for L in LAYOUTS for dt in DTYPES]
+    for (L, dt) in combos:
+        for rep in range(1 if q else 2):
+            lo = 0 if dt.startswith("uint") else -3
+            vals = list(range(lo, 4))
+            pn = rng.choice([0.0, 0.15]) if dt.startswith("float") else 0.0
+            var = {"layout": L, "dtype": dt}
+            H, W = rng.choice([(3, 4), (4, 3), (2, 5)])
+            X = rand_raster(rng, H, W, vals, pn)
+            K = rand_kernel(rng, fam)
+            jobs.append(dict(var, kind="apply", func="apply", X=X, K=K, reds=["sum", "mean"], tag="layout_dtype"))
+            jobs.append(dict(var, kind="apply", func="focal_stats", via="focal_stats",
+                             X=rand_raster(rng, H, W, vals, pn), K=rand_kernel(rng, fam), reds=["mean", "sum"],
+                             tag="layout_dtype"))
+            jobs.append(dict(var, kind="mean", X=rand_raster(rng, H, W, [v for v in vals if v >= -2][:4], pn),
+                             passes=rng.choice([1, 2]), excl=rng.choice(EXCLS + EXCL_MORE[:2]), tag="layout_dtype"))
+            kh, kw = rng.choice([(3, 3), (1, 3), (3, 1)])
+            jobs.append(dict(var, kind="conv", X=rand_raster(rng, kh + 1, kw + 2, vals, 0.0),
+                             Wt=[[rng.choice(DYADIC) for _ in range(kw)] for _ in range(kh)], tag="layout_dtype"))
+            for _ in range(20):
+                Xh = rand_raster(rng, 4, 5, vals, pn / 2)
+                if not variance_zero(Xh):
+                    break
+            Kh = rng.choice([k for k in masks(3, 3)[1:]])
+            jobs.append(dict(var, kind="hot", X=Xh, K=Kh, tag="layout_dtype"))
+    # kernels as bool / int / float32 arrays and F-ordered
+    for (kd, ko) in KVARIANTS:
+        for rep in range(1 if q else 4):
+            var = {"kdtype": kd, "korder": ko}
+            X = rand_raster(rng, 3, 4, [0, 1, 2, 3], 0.1)
+            jobs.append(dict(var, kind="apply", func="apply", X=X, K=rng.choice(fam[16:] + KFAMILY), reds=["sum"],
+                             tag="kernel_type"))
+            wt = [[rng.choice([0, 1] if kd == "bool" else [0, 1, -1, 2]) for _ in range(3)] for _ in range(3)]
+            jobs.append(dict(var, kind="conv", X=rand_raster(rng, 4, 4, [0, 1, 2], 0.0), Wt=wt, tag="kernel_type"))
+            for _ in range(20):
+                Xh = rand_raster(rng, 4, 4, [-2, 0, 1, 3], 0.0)
+                if not variance_zero(Xh):
+                    break
+            jobs.append(dict(var, kind="hot", X=Xh, K=rng.choice(masks(3, 3)[1:]), tag="kernel_type"))
+    # every orientation of the asymmetric 5-wide kernels
+    orient = []
+    for K in KFAMILY:
+        for Ko in (transpose(K), [row[::-1] for row in K], K[::-1], transpose(K[::-1])):
+            if Ko not in orient and Ko not in KFAMILY:
+                orient.append(Ko)
+    for K in (rng.sample(orient, 12) if q else orient):
+        H, W = rng.choice([(4, 4), (3, 4), (4, 3)])
+        jobs.append({"kind": "apply", "func": "apply", "X": pow2_raster(H, W, rng.randrange(H * W)), "K": K,
+                     "reds": ["sum", "wsum", "nancount"], "tag": "orientations"})
+    # passes = 3 (rasters whose windows have 2, 3, 4 or 6 cells keep the exact rationals small), passes = 0,
+    # exclusion lists with duplicates / several values
+    for t in range(40 if q else 400):
+        H, W = rng.choice([(2, 2), (2, 3), (3, 2), (1, 4), (4, 1), (1, 3), (1, 1)])
+        jobs.append({"kind": "mean", "X": rand_raster(rng, H, W, [0, 1, 2], rng.choice([0.0, 0.25])),
+                     "passes": rng.choice([3, 3, 0]), "excl": rng.choice(EXCLS + EXCL_MORE), "tag": "mean_passes3"})
+    for t in range(20 if q else 200):
+        H, W = rng.choice([(3, 3), (3, 4), (4, 4)])
+        jobs.append({"kind": "mean", "X": rand_raster(rng, H, W, [0, 1, 2], 0.2), "passes": rng.choice([1, 2]),
+                     "excl": rng.choice(EXCL_MORE), "tag": "mean_excl_dups"})
+    # hotspots: neighbourhood mean exactly the global mean (z = 0) on two-valued patterns, with and without NaN
+    two = [k for k in masks(3, 3) if sum(map(sum, k)) in (2, 4)]
+    for t in range(12 if q else 120):
+        H, W = rng.choice([(4, 4), (4, 6), (6, 4)])
+        a, b = rng.choice([(0, 2), (-1, 1), (1, 3)])
+        pat = rng.choice(["checker", "rows", "cols"])
+        X = [[(a if ((r + c) % 2 if pat == "checker" else (r % 2 if pat == "rows" else c % 2)) == 0 else b)
+              for c in range(W)] for r in range(H)]
+        if rng.random() < 0.3:
+            X[rng.randrange(H)][rng.randrange(W)] = "nan"
+        jobs.append({"kind": "hot", "X": X, "K": rng.choice(two), "tag": "hot_z0"})
+    # all-zero weights (legal for convolution_2d: 0 inside, NaN border, NaN where the window holds a NaN)
+    for (kh, kw) in ((1, 3), (3, 1), (3, 3)):
+        for pn in (0.0, 0.2):
+            jobs.append({"kind": "conv", "X": rand_raster(rng, kh + 2, kw + 2, [0, 1, 2], pn),
+                         "Wt": [[0] * kw for _ in range(kh)], "tag": "conv_zero_kernel"})
+    # 1xN / Nx1 / 2x2 / 1x1 rasters under kernels larger than the raster
+    for (H, W) in ((1, 4), (4, 1), (2, 2), (1, 1)):
+        for (kh, kw) in ((3, 3), (5, 5), (3, 5), (5, 1)):
+            X = rand_raster(rng, H, W, [0, 1, 2, 5], 0.1)
+            jobs.append({"kind": "conv", "X": X, "Wt": [[rng.choice(DYADIC) for _ in range(kw)] for _ in range(kh)],
+                         "tag": "tiny_raster"})
+            jobs.append({"kind": "apply", "func": "focal_stats", "via": "focal_stats", "X": X,
+                         "K": [[rng.choice([0, 1]) for _ in range(kw)] for _ in range(kh)], "reds": STATS,
+                         "tag": "tiny_raster"})
+            if not variance_zero(X) and not all(v == "nan" for row in X for v in row):
+                jobs.append({"kind": "hot", "X": [[0 if v == "nan" else v for v in row] for row in X],
+                             "K": [[1] * kw for _ in range(kh)], "tag": "tiny_raster"})
+        jobs.append({"kind": "mean", "X": rand_raster(rng, H, W, [0, 1, 2], 0.2), "passes": 2, "excl": [0],
+                     "tag": "tiny_raster"})
+    return jobs
+
+
 def chunkings(H, W):
     """single block, 1-cell chunks, an uneven split"""
     out = [[[H], [W]], [[1] * H, [1] * W]]
@@ -395,24 +508,32 @@ def dask_jobs(rng, tier, base):
 def arrange(rng, jobs, nproc=NPROC):
     """run_jobs gives job i to process i % nproc.  Jobs with a non-default dtype need their own JIT
     specialisations (0.5 s each): keep them all on process 0 so that only one process compiles them."""
-    variant = [j for j in jobs if (j.get("dtype") or j.get("kdtype")) and not j.get("chunks")]
+    def special(j):
+        return bool(j.get("dtype") or j.get("kdtype") or j.get("layout") or j.get("korder"))
+    variant = [j for j in jobs if special(j) and not j.get("chunks")]
+    # JIT specialisations are keyed by (dtype, layout class): split the variants by dtype over processes 0 and 3
+    va = [j for j in variant if DTYPES.index(j.get("dtype", "float64")) % 2 == 0]
+    vb = [j for j in variant if DTYPES.index(j.get("dtype", "float64")) % 2 == 1]
     dask = [j for j in jobs if j.get("chunks")]       # float32 specialisations too: processes 1 and 2 only
-    normal = [j for j in jobs if not (j.get("dtype") or j.get("kdtype") or j.get("chunks"))]
+    normal = [j for j in jobs if not (special(j) or j.get("chunks"))]
     rng.shuffle(normal)
     out = []
-    vi = ni = di = 0
-    while vi < len(variant) or ni < len(normal) or di < len(dask):
+    while va or vb or dask or normal:
         slot = len(out) % nproc
-        if slot == 0 and vi < len(variant):
-            out.append(variant[vi]); vi += 1
-        elif slot in (1, 2) and di < len(dask):
-            out.append(dask[di]); di += 1
-        elif ni < len(normal):
-            out.append(normal[ni]); ni += 1
-        elif di < len(dask):
-            out.append(dask[di]); di += 1
+        if slot == 0 and va:
+            out.append(va.pop())
+        elif slot == 3 and vb:
+            out.append(vb.pop())
+        elif slot in (1, 2) and dask:
+            out.append(dask.pop())
+        elif normal:
+            out.append(normal.pop())
+        elif dask:
+            out.append(dask.pop())
+        elif va:
+            out.append(va.pop())
         else:
-            out.append(variant[vi]); vi += 1
+            out.append(vb.pop())
     return out
 
 
@@ -585,12 +706,17 @@ def replay_all(ctx, rng):
     jobs = (apply_window_jobs(rng, ctx.tier, fam) + stats_jobs(rng, ctx.tier, fam, K33_SEL + KFAMILY[:6])
             + reducer_jobs(rng, ctx.tier, fam) + mean_jobs(rng, ctx.tier) + conv_jobs(rng, ctx.tier)
             + hot_jobs(rng, ctx.tier) + badkernel_jobs())
+    jobs += input_variation_jobs(rng, ctx.tier, fam)
     jobs += dask_jobs(rng, ctx.tier, jobs)
     jobs = arrange(rng, jobs)
     judge_cases(ctx, core.run_jobs("focal_worker", jobs, nproc=NPROC))
 
 
+RAISED = {}
+
+
 def judge_cases(ctx, cases):
+    RAISED.clear()
     by = {}
     for c in cases:
         if "error" in c:
@@ -598,10 +724,15 @@ def judge_cases(ctx, cases):
                 continue
             # a call inside the domain raised: that is a failure of the property's "equal ..." clause
             func = c["job"].get("func") or FUNC.get(c["kind"], c["kind"])
-            ctx.violation("%s%s:call-raised" % ("dask:" if c["job"].get("chunks") else "", func), "call_raised",
-                          c["job"], c["error"])
+            key = "%s%s:call-raised" % ("dask:" if c["job"].get("chunks") else "", func)
+            RAISED[key] = RAISED.get(key, 0) + 1
+            if RAISED[key] <= 3:                       # at most three replay files per failing class
+                ctx.violation(key, "call_raised", c["job"], c["error"])
             continue
         by.setdefault(c["kind"], []).append(c)
+    for key, n in RAISED.items():
+        if n > 3:
+            ctx.note("%s: %d failing cases (3 replay files written)" % (key, n))
     for kind in ("apply", "mean", "conv", "hot", "ladder"):
         judge_kind(ctx, kind, by.get(kind, []), parallel=ctx.pick(3, 8) if kind in ("apply", "mean") else ctx.pick(2, 4))
     # kernel validation: not part of the property text -> drift only
